@@ -423,6 +423,43 @@ pub fn run_c01(ctx: &mut Ctx) {
     }
 }
 
+/// C03, native half: what the native encoder writes for values of every corpus type is read by the specification's
+/// reader at the type the library derives (type table well formed, fields ascending, values as declared)
+pub fn run_native_wellformed(ctx: &mut Ctx) {
+    let es = entries();
+    let per = if ctx.thorough { 40 } else { 2 };
+    for e in es.iter() {
+        if e.name.starts_with("BoundedVec") {
+            continue;
+        }
+        for _ in 0..per {
+            let mut r = Rng(ctx.rng.next());
+            let rt = e.roundtrip;
+            match guarded(move || rt(&mut r)) {
+                Ok(Ok((bytes, val))) => {
+                    let (env, ty) = (e.ty)();
+                    let unordered = e.name.contains("HashMap");
+                    ctx.emit(
+                        &format!(
+                            "{}\t{}\t-\t{}\t{}\t{}\t({})",
+                            if unordered { "nat.checkU" } else { "nat.check" },
+                            e.name,
+                            sexp::hx(&bytes),
+                            sexp::env(&env),
+                            sexp::ty(&ty),
+                            if unordered { sorted_canon(&val) } else { sexp::val(&val, true) }
+                        ),
+                        true,
+                    );
+                    ctx.out.stat("native-wellformed");
+                }
+                Ok(Err(why)) => ctx.out.oracle_failure(&format!("native round trip fails: {why}"), &e.name),
+                Err(_) => ctx.out.oracle_failure("native round trip panics", &e.name),
+            }
+        }
+    }
+}
+
 pub fn run_c08(ctx: &mut Ctx) {
     let es = entries();
     ctx.out.stat(&format!("corpus-types:{}", es.len()));
